@@ -267,6 +267,8 @@ XalanOutputStream::setOutputEncoding(const XalanDOMString&  theEncoding)
 
     m_transcoder = 0;
 
+    m_writeAsUTF16 = false;
+
     XalanTranscodingServices::eCode     theCode = XalanTranscodingServices::OK;
 
     if (XalanTranscodingServices::encodingIsUTF16(theEncoding) == true)
